@@ -1,22 +1,38 @@
 """C04 — the parsed tree does not depend on the tree builder chosen."""
-from h5 import gen, lean, trees
+from h5 import backends, gen, lean, trees
 from props import _tree
 
 ID = "C04"
 PROPS_MODULE = "H5.Props.C04"
+EXTRA_PROPS_MODULES = ["H5.Props.C04b"]
 GEN_MODULES = ["Constants"]
-CORRESPONDENCE_OPS = ["treev"]
+CORRESPONDENCE_OPS = ["treev", "prims:etree", "prims:dom"]
 SOURCES = ["html5lib/treebuilders/etree.py", "html5lib/treebuilders/dom.py", "html5lib/treebuilders/base.py",
            "html5lib/treebuilders/__init__.py"]
 LEVEL = "translation_validation"
 TRUSTED = ["H5.Model.Dom: one arena model of the node primitives with the intended common semantics (adjacent text merged), "
-           "tied to BOTH real back ends through the tree correspondence; the per-backend representations (etree text/tail + "
-           "_childNodes shadow list, minidom text nodes / AttrList) are not modelled separately",
+           "tied to BOTH real back ends through the tree correspondence",
+           "H5.Model.Backend.ETree / H5.Model.Backend.MiniDom: hand models of treebuilders/etree.py over ElementTree and of "
+           "treebuilders/dom.py over xml.dom.minidom (CPython 3.12), each tied to the real wrapper classes by the ops "
+           "prims:etree / prims:dom (random, contract-respecting and exhaustive-short primitive scripts); minidom Text nodes "
+           "are kept by value in the child list (never handed out, never modified); the minidom case 'setAttributeNS on an "
+           "existing attribute with another prefix' (the Attr is renamed but stays under its old _attrs key; needs "
+           "attributes[name]=... followed by cloneNode on the same node, which the parser never does) is declared "
+           "unmodelled by the model and such scripts are counted, not compared",
+           "the C04_prim_* theorems are stated under preconditions (parentless new child, refNode a child, fresh reparent "
+           "target, no text after a removed node, non-empty data, collision-free attribute keys); that the parser keeps them "
+           "is checked by instrumented real parses (contract section), not proved",
            "direct traversal of minidom / ElementTree results (tools/h5/trees.py)"]
 RULE = ("same input parsed with etree, etree(fullTree) and dom builders x namespaceHTMLElements on/off x document/fragment: "
         "abstract trees (adjacent text merged) must be equal (modulo the HTML namespace when namespacing is off); inputs: "
         "soup biased to foster parenting / adoption agency / fragments + the tree-correspondence generators; "
-        "non-trivial = tree has >= 4 nodes")
+        "non-trivial = tree has >= 4 nodes.  Back-end level: primitive scripts (create / appendChild / insertText / "
+        "insertBefore / removeChild / reparentChildren / cloneNode / attributes / hasContent / parent / getDocument / "
+        "getFragment on numbered nodes) run on the real etree and dom wrapper classes and on the two Lean back-end models "
+        "(all node trees + per-call results/exceptions compared): wild scripts, contract-respecting scripts and all scripts "
+        "of <= 2 (thorough: 3) calls over a 37-call alphabet from 3 start states; oracle: for every script inside the "
+        "contract the two back ends give equal trees for every node and equal results; non-trivial = script has a "
+        "structural call after its creations")
 
 
 def strip_html_ns(t):
@@ -111,12 +127,255 @@ def one(ctx, text, frag, ns):
     return res
 
 
+# ---------------------------------------------------------------- back-end level: primitive scripts
+
+PRIM_FINDINGS = {
+    # class -> (script, what to observe); reproduced by witness_case and by run()
+    "etree-reparentChildren-typeerror-on-nonempty-target":
+        (False, False, [("E", None, "a"), ("E", None, "b"), ("E", None, "c"), ("a", 2, 3), ("t", 1, "x", None), ("m", 1, 2)]),
+    "etree-removeChild-drops-following-text":
+        (False, False, [("E", None, "a"), ("E", None, "b"), ("a", 1, 2), ("t", 1, "x", None), ("r", 1, 2)]),
+}
+
+
+def script_nontrivial(script):
+    return any(c[0] in "atbrmkGs" for c in script[2])
+
+
+def run_scripts(ctx, scripts, label):
+    """correspondence of both back-end models with the real classes on the given scripts; returns the real results"""
+    reqs, reals, keep = {"prims:etree": [], "prims:dom": []}, {"prims:etree": [], "prims:dom": []}, []
+    for sc in scripts:
+        e = backends.run_real(backends.RealEtree, sc)
+        d = backends.run_real(backends.RealDom, sc)
+        if e is None or d is None:
+            ctx.count("prims:%s:refused-by-cycle-guard" % label)
+            continue
+        wire_sc = backends.enc_script(sc)
+        for op, r in (("prims:etree", e), ("prims:dom", d)):
+            reqs[op].append(op + " " + wire_sc)
+            reals[op].append(r[0])
+            ctx.case(op, wire_sc, nontrivial=script_nontrivial(sc), sample={"script": repr(sc)[:200], "real": r[0][:120]})
+        ctx.count("prims:%s" % label)
+        ctx.count("prims:%s:%s" % (label, "raises" if e[1] is None or d[1] is None else "completes"))
+        keep.append((sc, e, d))
+    if ctx.driver_ok:
+        from h5.wire import same
+        for op in reqs:
+            for rq, r, m in zip(reqs[op], reals[op], lean.run_driver(reqs[op])):
+                if m.endswith("!UNMODELLED"):
+                    # minidom renames an Attr in place but keeps it under its old _attrs key (setAttributeNS on an existing
+                    # attribute with another prefix; needs attributes[name]=… followed by cloneNode/attributes=… on one node)
+                    ctx.count("prims:%s:unmodelled-minidom-attr-rename" % label)
+                    continue
+                if not same(r, m):
+                    ctx.disagree(op, rq, r, m)
+    return keep
+
+
+def has_ns_attr(script):
+    return any(c[0] == "s" and any(isinstance(k, tuple) for k, _ in c[2]) for c in script[2])
+
+
+def cross_oracle(ctx, sc, e, d, sh):
+    """the two back ends on one contract-respecting script: equal trees for every handle, equal results"""
+    inp = {"script": repr(sc)}
+    if e[1] is None or d[1] is None:
+        ctx.fail("prims-contract-script-raises", "a primitive call inside the contract raises",
+                 dict(inp, etree=e[0][:300], dom=d[0][:300]))
+        return
+    if e[1] != d[1]:
+        bad = [h for h, (x, y) in enumerate(zip(e[1], d[1])) if x != y]
+        ctx.fail("prims-backends-differ", "etree and dom back ends build different trees from the same primitive calls",
+                 dict(inp, node=bad[0], etree=repr(e[1][bad[0]])[:300], dom=repr(d[1][bad[0]])[:300]))
+        return
+    ns_attrs = has_ns_attr(sc)
+    for c, x, y in zip(sc[2], e[2], d[2]):
+        if x == y or c[0] in "Dc":
+            continue            # D: root element vs Document; c: NodeBuilder.childNodes is never maintained (always [])
+        if c[0] in "gq" and ns_attrs:
+            continue            # namespaced attribute names are spelled '{ns}local' / 'prefix:local'
+        if c[0] == "P" and (c[1] in sh.moved or sh.parent[c[1]] == 0 or x == "n0"):
+            continue            # dom: children of the document have parent None; reparentChildren leaves .parent stale
+        ctx.fail("prims-results-differ:%s" % c[0], "a primitive returns different values on the two back ends",
+                 dict(inp, call=repr(c), etree=x, dom=y))
+        return
+    # getDocument(): root form = the html subtree of the full form
+    for idx, (c, x) in enumerate(zip(sc[2], e[2])):
+        if c[0] == "D" and not sc[1] and idx == len(sc[2]) - 1:      # the trees are those of the final state
+            ns = gen.HTML_NS if sc[0] else None
+            htmls = [k for k in e[1][0][1] if k[0] == "elem" and k[1] == ns and k[2] == "html"]
+            want = htmls[0] if htmls else None
+            got = None if x == "~" else e[1][int(x[1:])]
+            if got != want:
+                ctx.fail("etree-root-vs-fulltree", "etree getDocument() root form is not the html subtree of the full tree",
+                         dict(inp, got=repr(got)[:200], want=repr(want)[:200]))
+                return
+
+
+def prim_finding_case(ctx, cls):
+    sc = PRIM_FINDINGS[cls]
+    e = backends.run_real(backends.RealEtree, sc)
+    d = backends.run_real(backends.RealDom, sc)
+    ctx.case("prims-finding", cls, nontrivial=True)
+    if cls == "etree-reparentChildren-typeerror-on-nonempty-target":
+        if e[2][-1] == "!TypeError" and d[1] is not None:
+            ctx.fail(cls, "etree reparentChildren raises TypeError where dom moves the children", {"script": repr(sc), "etree": e[0]})
+    elif cls == "etree-removeChild-drops-following-text":
+        if e[1] is not None and d[1] is not None and e[1][1] != d[1][1]:
+            ctx.fail(cls, "etree removeChild removes the text after the node as well", {"script": repr(sc), "etree": repr(e[1][1]),
+                                                                                       "dom": repr(d[1][1])})
+
+
+def contract_reachability(ctx, n):
+    """instrument the REAL etree wrappers during real parses: does the tree builder ever make a call outside the contract
+    under which the back ends are proved equivalent?  (a hit would make a latent back-end defect reachable)"""
+    import xml.etree.ElementTree as ET
+    from html5lib.treebuilders import etree as etb
+    mod = etb.getETreeModule(ET, fullTree=True)
+    E = mod.Element
+    orig = {k: E.__dict__[k] for k in ("removeChild", "appendChild", "insertBefore", "reparentChildren", "insertText", "cloneNode",
+                                        "attributes")}
+    hits, cur, inrep = {}, [None], [0]
+
+    def note(k):
+        hits.setdefault(k, cur[0])
+
+    def removeChild(self, node):
+        if node._element.tail:
+            note("removeChild:text-follows-node")
+        if node not in self._childNodes:
+            note("removeChild:not-a-child")
+        return orig["removeChild"](self, node)
+
+    def appendChild(self, node):
+        if not inrep[0]:
+            if node.parent is not None:
+                note("appendChild:node-has-parent")
+            if node._element.tail:
+                note("appendChild:node-has-tail")
+            if node is self:
+                note("appendChild:self")
+        return orig["appendChild"](self, node)
+
+    def insertBefore(self, node, ref):
+        if node.parent is not None:
+            note("insertBefore:node-has-parent")
+        if node._element.tail:
+            note("insertBefore:node-has-tail")
+        if ref not in self._childNodes:
+            note("insertBefore:ref-not-a-child")
+        return orig["insertBefore"](self, node, ref)
+
+    def reparentChildren(self, newParent):
+        if newParent._childNodes or len(newParent._element):
+            note("reparentChildren:target-has-children")
+        if newParent is self:
+            note("reparentChildren:self")
+        inrep[0] += 1
+        try:
+            return orig["reparentChildren"](self, newParent)
+        finally:
+            inrep[0] -= 1
+
+    def insertText(self, data, insertBefore=None):
+        if data == "":
+            note("insertText:empty-data")
+        if insertBefore is not None and insertBefore not in self._childNodes:
+            note("insertText:ref-not-a-child")
+        if not isinstance(self._element.tag, str) or self._element.tag == "<!DOCTYPE>":
+            note("insertText:into-comment-or-doctype")
+        return orig["insertText"](self, data, insertBefore)
+
+    def cloneNode(self):
+        if type(self) is not E:
+            note("cloneNode:not-an-element")
+        return orig["cloneNode"](self)
+
+    def _setAttributes(self, attributes):
+        if len(self._element.attrib):
+            note("setAttributes:not-fresh")
+        if attributes and not backends.Shadow.attrs_ok(list(attributes.items())):
+            # two attribute names with the same part after ':' is the recorded dom finding; anything else is new
+            names = [k for k in attributes if not isinstance(k, tuple)]
+            local = [k.split(":", 1)[-1] for k in names]
+            if len(set(local)) == len(local) or any(isinstance(k, tuple) for k in attributes):
+                if any(k == "" or (not isinstance(k, tuple) and k.startswith("{")) for k in attributes):
+                    note("setAttributes:name-reads-back-differently")
+                elif len(set(local)) == len(local):
+                    note("setAttributes:colliding-keys")
+        return orig["attributes"].fset(self, attributes)
+
+    E.removeChild, E.appendChild, E.insertBefore, E.reparentChildren = removeChild, appendChild, insertBefore, reparentChildren
+    E.insertText, E.cloneNode = insertText, cloneNode
+    E.attributes = property(orig["attributes"].fget, _setAttributes)
+    hard = ["<table><b>", "<b><div><table><i>x</table></b>", "<table><a>x<td>", "<a><table><a>y</table>z</a>", "<table>x<tr>y<td>z",
+            "<b><table><td></b><i></table>X", "<p><b><i><u></p>x", "<select><b><option>x</select>y", "<b><p><table>", "<a><p><table>x<a>",
+            "<frameset>", "<body><frameset>", "<table><caption><b></caption>x</table>"]
+    frags = [None, None, "div", "table", "tr", "select", "svg", "tbody", "td"]
+    try:
+        for i in range(n):
+            text = ctx.rng.choice(hard) + gen.soup(ctx.rng, maxparts=8) if i % 3 == 0 else gen.soup(ctx.rng, maxparts=14)
+            cur[0] = text
+            try:
+                gen.parse_real(text, tb="etree", fragment=ctx.rng.choice(frags), ns=ctx.rng.random() < 0.5, full=True)
+            except RecursionError:
+                continue
+            except Exception:        # noqa  (parser exceptions are the business of C03)
+                continue
+            ctx.case("contract", text, nontrivial=len(text) > 10)
+    finally:
+        for k, v in orig.items():
+            setattr(E, k, v)
+    for k, text in sorted(hits.items()):
+        if k == "setAttributes:name-reads-back-differently":
+            ctx.count("contract:attribute-name-starting-with-brace")     # C04 'builders' oracle covers the parse-level effect
+            continue
+        ctx.fail("parser-breaks-backend-contract:" + k, "the tree builder calls a back-end primitive outside the contract under which "
+                 "the two back ends are equivalent", {"input": text, "which": k})
+
+
+def run_prims(ctx):
+    rng = ctx.rng
+    # 1. wild scripts: any call sequence (no cycles, no self-reparent): models vs real classes, exceptions included
+    wild = [backends.random_script(rng, rng.randint(3, 14), True)[0] for _ in range(ctx.scale(1200, 40000))]
+    run_scripts(ctx, wild, "wild")
+    # 2. contract-respecting scripts: correspondence + the cross-back-end oracle
+    good = [backends.random_script(rng, rng.randint(4, 18), False)[0] for _ in range(ctx.scale(1200, 40000))]
+    good = [(ns, full, calls + [("D",)]) for ns, full, calls in good]
+    for sc, e, d in run_scripts(ctx, good, "contract"):
+        ok, sh = backends.classify_contract(sc)
+        assert ok
+        cross_oracle(ctx, sc, e, d, sh)
+    # 3. exhaustive short scripts from three start states
+    short = list(backends.exhaustive_scripts(ctx.scale(2, 3)))
+    if ctx.tier != "thorough":
+        short += [(False, False, list(rng.choice(backends.PREAMBLES)) + [rng.choice(backends.short_alphabet()) for _ in range(3)])
+                  for _ in range(1500)]
+    n_in = 0
+    for sc, e, d in run_scripts(ctx, short, "short"):
+        ok, sh = backends.classify_contract(sc)
+        if ok:
+            n_in += 1
+            cross_oracle(ctx, sc, e, d, sh)
+    ctx.count("prims:short:inside-contract", n_in)
+    # 4. the recorded back-end findings stay reproducible
+    for cls in PRIM_FINDINGS:
+        prim_finding_case(ctx, cls)
+    # 5. does the parser stay inside the contract?
+    contract_reachability(ctx, ctx.scale(2500, 60000))
+
+
 def witness_case(ctx, w):
-    one(ctx, w["input"], w.get("fragment"), True)
+    if "prim_class" in w:
+        prim_finding_case(ctx, w["prim_class"])
+    else:
+        one(ctx, w["input"], w.get("fragment"), True)
 
 
 def run(ctx):
     thorough = ctx.tier == "thorough"
+    run_prims(ctx)
     T, recs, hits = _tree.run(ctx, 60000 if thorough else 4000, modes=("soup",))
     for r in recs:
         ctx.case("treev", repr(r["case"]), nontrivial=True)
